@@ -493,7 +493,45 @@ def r5_content_type_gate(ctx):
                       "code: json-parser=%s urlencoded-parser=%s Ok(TypedBody)=%s; spec: %s %s %s" % (gj, gu, gok, wj, wu, wok), f)
 
 
-RULES = [("C10.R1", r1_short_circuit), ("C10.R2", r2_tuples), ("C10.R3", r3_error_class), ("C10.R4", r4_panic_census), ("C10.R5", r5_content_type_gate)]
+
+def r6_one_step_decode(ctx):
+    """Added after adversary change C10-B (JSON body parsed into serde_json::Value first, which keeps only the
+    last of a repeated key, then mapped onto the type: the derived `duplicate field` refusal can no longer fire)."""
+    R = ctx.rule("C10.R6", "a typed body is decoded in ONE step from the raw body bytes straight into the endpoint's declared type: the deserializer handed to the typed decode is a "
+                 "serde_json / serde_urlencoded deserializer over the body bytes, never an intermediate dynamically typed value (serde_json::Value, a map) that has already merged duplicate keys", floor=4)
+    top = ctx.need_fn(ctx.ds, R, r"^extractor::body::http_request_load_body$")
+    f = ctx.ds.body_of(top)
+    import re as _re
+    decodes = [(bb, t) for bb, t in f.live_calls(r"serde_path_to_error::deserialize$|^serde_json::from_(slice|str|reader)$|^serde_json::from_value$|serde::Deserialize::deserialize$|^serde_urlencoded::from_(bytes|str|reader)$")
+               if any(_re.match(r"^BodyType/#\d+$", g) for g in t.get("gargs", []))]
+    ctx.check(R, "typed-decode-sites", len(decodes) == 2, "decode calls producing the endpoint's BodyType: %d (JSON and url-encoded)" % len(decodes), f)
+    allowed_src = {
+        "json": r"^&('\{erased\} |'[a-z_]+ )?mut serde_json::Deserializer<serde_json::de::(SliceRead|StrRead)<",
+        "urlencoded": r"^serde_urlencoded::Deserializer<",
+    }
+    for bb, t in decodes:
+        ga = t.get("gargs", [])
+        callee = t["callee"]
+        if callee.endswith("serde_path_to_error::deserialize") or callee.endswith("Deserialize::deserialize"):
+            dty = [g for g in ga if not g.startswith("'") and not _re.match(r"^BodyType/#\d+$", g)]
+            dty = dty[0] if dty else "?"
+            kind = "json" if "serde_json" in dty else ("urlencoded" if "serde_urlencoded" in dty else "other")
+            ok = kind in allowed_src and bool(_re.search(allowed_src[kind], dty))
+            ctx.check(R, "decoder-source:%s" % (kind if ok else "other"), ok,
+                      "typed decode reads from `%s` (%s)" % (dty, "a byte-level deserializer" if ok else "an intermediate value: duplicate keys / repeated fields were already merged before the declared type saw them"), (f, bb))
+            if ok:
+                s = f.slice(t["args"][0])
+                src_ok = s.has_call(r"serde_json::Deserializer::<.*>::from_(slice|str)$|serde_urlencoded::Deserializer::<'de>::new$") and s.has_call(r"StreamingBody::into_bytes_mut$|into_bytes_mut")
+                ctx.check(R, "decoder-over-body-bytes:%s" % kind, src_ok, "the deserializer is built over this request's body bytes: %s" % src_ok, (f, bb))
+        elif "from_value" in callee:
+            ctx.check(R, "decoder-source:other", False, "typed decode via serde_json::from_value: the body went through a serde_json::Value first", (f, bb))
+        else:
+            s = f.slice(t["args"][0])
+            ctx.check(R, "decoder-source:direct", s.has_call(r"into_bytes_mut"), "direct %s over the body bytes" % callee, (f, bb))
+    vals = [ty for ty in f.raw["locals"] if _re.search(r"serde_json::Value|serde_json::Map<", ty)]
+    ctx.check(R, "no-dynamic-json-value", not vals, "locals of a dynamically typed JSON value in http_request_load_body: %s" % (sorted(set(vals))[:3] or "none"), f)
+
+RULES = [("C10.R6", r6_one_step_decode), ("C10.R1", r1_short_circuit), ("C10.R2", r2_tuples), ("C10.R3", r3_error_class), ("C10.R4", r4_panic_census), ("C10.R5", r5_content_type_gate)]
 
 _LOAD_BODY_HV = """            hv.to_str().map_err(|e| {
                 HttpError::for_bad_request(
